@@ -53,7 +53,15 @@ func GenCase(r *rand.Rand, seed int64, kind string) Case {
 	discardA := ActionSpec{"type": "discard", "match_fields": map[string]any{"op2": "discard"}}
 	switch kind {
 	case "mix":
-		switch r.Intn(7) {
+		if r.Intn(4) == 0 {
+			cs.ResumePct = 60
+		}
+		switch r.Intn(8) {
+		case 7:
+			// a second split action sees the children of the first
+			cs.Chain = []ActionSpec{script, split, split}
+			cs.SplitPct = 35
+			cs.NestedSplit = true
 		case 0:
 			cs.Chain = []ActionSpec{script}
 		case 1:
